@@ -315,12 +315,12 @@ def check(ctx) -> None:
             continue
         bad = [(sz, v) for sz, v in vals if not (isinstance(v, (int, float)) and v > 0)]
         ctx.check("C32.timeout", e_, not bad, f"{label}: the time allowed for a test case of size {[b[0] for b in bad]} is {[b[1] for b in bad]}: the executor stops waiting at once and declares a test that terminates (the empty test case minimisation produces) timed out - or not, depending on thread scheduling", what=f"{label}: positive for sizes 0, 1, 3, 1000 ({[v for _s, v in vals]})", stmt=f"[budget] {label}")
-    alive = [n for n in own_nodes(ex) if isinstance(n, ast.If) and norm(n.test) == "thread.is_alive()"]
+    alive = [n for n in own_nodes(ex) if isinstance(n, ast.If) and isinstance(n.test, ast.Call) and last_attr(n.test) == "is_alive"]
     ok = len(alive) == 1
     if ok:
         body_txt = [norm(s) for s in alive[0].body]
         stop_i = next((i for i, t in enumerate(body_txt) if t.endswith("instrumentation_tracer.stop()")), None)
-        res_i = next((i for i, t in enumerate(body_txt) if t == "result = ExecutionResult(timeout=True)"), None)
+        res_i = next((i for i, st_ in enumerate(alive[0].body) if isinstance(st_, (ast.Assign, ast.Return)) and st_.value is not None and norm(st_.value) == "ExecutionResult(timeout=True)"), None)
         ok = stop_i is not None and res_i is not None and stop_i < res_i and not any("return_queue.get" in t for t in body_txt)
     ctx.check("C32.timeout", alive[0] if alive else ex, ok, "a test whose thread is still alive after the bounded wait is not stopped and answered with a fresh ExecutionResult(timeout=True)", what="alive -> tracer.stop(); fresh timeout result")
     th = [n for n in own_nodes(ex) if isinstance(n, ast.Call) and norm(n.func) == "threading.Thread"]
